@@ -459,7 +459,10 @@ def live_object(inp, k, st, fail, entry_points):
     elif op == "dup":
       st[step[1]][step[2]] = st[step[1]][step[3]]
     elif op == "hp":
-      k.hyperparameters = numpy.array(step[1], dtype=float)
+      sent = numpy.array(step[1], dtype=float)
+      k.hyperparameters = sent
+      if [float(v) for v in sent] != [float(v) for v in step[1]]:     # the vector is the caller's (an optimiser's iterate, a row of its table of starts)
+        return fail("the setter wrote to the hyperparameter vector it was handed", [float(v) for v in sent], [float(v) for v in step[1]])
       st["hp"][:] = [float(v) for v in step[1]]
       if [float(v) for v in k.hyperparameters] != st["hp"]:
         return fail("hyperparameters do not read back as set", [float(v) for v in k.hyperparameters], list(st["hp"]))
